@@ -76,7 +76,11 @@ func runObligations(frs []*FuncResult, dir string, secs int, wantModels bool) []
 				or.R = SolveResult{Status: "error", Raw: "query exceeds size cap"}
 				return
 			}
-			or.R = solve(q, dir, or.O.Name, secs, nil)
+			t := secs
+			if or.O.Expect == "sat" && t > 4 {
+				t = 4 // vacuity guards are only claimed when they are easy
+			}
+			or.R = solve(q, dir, or.O.Name, t, nil)
 			want := "unsat"
 			if or.O.Expect == "sat" {
 				want = "sat"
